@@ -74,7 +74,7 @@ IsPrefixOf(a, b) == Len(a) <= Len(b) /\ SubSeq(b, 1, Len(a)) = a
 
 PrefixesAreTruncated ==
     done => LET b == Bytes
-            IN  \A c \in 0 .. Len(b) - 1 :
+            IN  \A c \in 1 .. Len(b) - 1 :
                   LET r == ParseLenient(SubSeq(b, 1, c))
                   IN  r.status = "truncated" /\ IsPrefixOf(r.content, content)
 
